@@ -1361,6 +1361,9 @@ impl World {
                 upd(pk.at);
             }
             for ep in &self.eps {
+                if ep.silent {
+                    continue; // a crashed endpoint has no timers any more
+                }
                 for cs in ep.conns.values() {
                     if let Some(w) = cs.wake_at {
                         upd(w);
